@@ -145,6 +145,30 @@ Definition frame (d : bytes) : bytes := hex (N.of_nat (length d)) ++ crlf ++ d +
 Definition term : bytes := [48; 13; 10; 13; 10].
 Definition nonempty (d : bytes) : bool := match d with [] => false | _ => true end.
 
+(* wrappers.file_generator: the body pieces of a response whose body has a read() method (Body.__set__ wraps
+   it and sets Response.stream).  [reads] = what successive read(chunkSize) calls return, in order (a source
+   that is exhausted returns the empty string; after the script, too): every non-empty result is yielded,
+   the first empty one ends the body - however short the earlier reads were. *)
+Fixpoint file_gen (reads : list bytes) : list bytes :=
+  match reads with
+  | [] => []
+  | r :: t => if nonempty r then r :: file_gen t else []
+  end.
+
+(* the reads a source with [data] left performs when read(n) may return fewer bytes than asked for:
+   [caps] = the most each successive read is willing to return (0 = as much as asked), n = chunkSize > 0 *)
+Fixpoint src_reads (fuel n : nat) (caps : list nat) (data : bytes) : list bytes :=
+  match fuel with
+  | O => []
+  | S f =>
+      match data with
+      | [] => [[]]
+      | _ =>
+          let cap := match caps with c :: _ => if Nat.eqb c 0 then n else Nat.min c n | [] => n end in
+          firstn cap data :: src_reads f n (tl caps) (skipn cap data)
+      end
+  end.
+
 Inductive out :=
 | Out (writes : list bytes) (closed : bool)
 | Crash.      (* next() on a list: Response.stream set on a body that is not an iterator *)
